@@ -291,6 +291,50 @@ pub fn intern_str(str: &str) -> IStr {
 	unsafe { intern_bytes(str.as_bytes()).cast_str_unchecked() }
 }
 
+/// Verification hooks: read-only views of the pool and of the reference-count header.
+/// Compiled only with `--cfg jrsonnet_verif`; no effect on normal builds.
+#[cfg(jrsonnet_verif)]
+pub mod verif {
+	use crate::{inner::Inner, IBytes, IStr, POOL};
+
+	/// Number of entries in the current thread's pool
+	#[must_use]
+	pub fn verif_pool_len() -> usize {
+		POOL.with(|pool| pool.borrow().len())
+	}
+	/// Reference count stored in the header of the allocation behind `s`
+	#[must_use]
+	pub fn verif_refcnt(s: &IStr) -> u32 {
+		Inner::strong_count(&s.0)
+	}
+	/// Reference count stored in the header of the allocation behind `s`
+	#[must_use]
+	pub fn verif_refcnt_bytes(s: &IBytes) -> u32 {
+		Inner::strong_count(&s.0)
+	}
+	/// Address of the data behind `s` (identity used by `==` and `Hash`)
+	#[must_use]
+	pub fn verif_addr(s: &IStr) -> usize {
+		Inner::as_ptr(&s.0) as usize
+	}
+	/// Address of the data behind `s` (identity used by `==` and `Hash`)
+	#[must_use]
+	pub fn verif_addr_bytes(s: &IBytes) -> usize {
+		Inner::as_ptr(&s.0) as usize
+	}
+	/// Address of the pool entry holding these contents, if any
+	#[must_use]
+	pub fn verif_pool_addr(bytes: &[u8]) -> Option<usize> {
+		POOL.with(|pool| {
+			pool.borrow()
+				.get_key_value(bytes)
+				.map(|(k, ())| Inner::as_ptr(k) as usize)
+		})
+	}
+}
+#[cfg(jrsonnet_verif)]
+pub use verif::{verif_pool_len, verif_refcnt};
+
 #[cfg(test)]
 mod tests {
 	use crate::IStr;
